@@ -4,7 +4,7 @@
 W=$1; M=$2
 cd "$W" || exit 2
 export CARGO_TARGET_DIR=$W/target CARGO_NET_OFFLINE=true
-FEAT="--features tokio1,tokio1-native-tls"
+FEAT="--features tokio1,tokio1-native-tls,dkim,serde,file-transport-envelope,sendmail-transport"
 git checkout -q -- . ; git clean -fdq tests/ >/dev/null 2>&1
 DEMO=$(ls "$M"/*.rs | head -1); NAME=$(basename "$DEMO" .rs)
 LOG=$M/confirm.log; : > "$LOG"
